@@ -74,15 +74,19 @@ theorem selectsClosestB_iff (vdict : List (Int × Val)) (x : Val) (i : Int) :
 /-- what is recorded after one operation on a float/enum pair -/
 structure FRec where
   write : Option Val        -- `some x`: the operation was a write of the float parameter with value `x`
+  assign : Option Val       -- `some x`: the driver assigned `x` to the float parameter (`self.<name> = x`)
   ok : Bool                 -- the operation was accepted
   selected : Option Int     -- the index the write handed to `write_<idx>` (or stored, without such a method)
   idx : Int                 -- index parameter after the operation
   value : Val               -- float parameter after the operation, as a client reads it
   deriving Repr, DecidableEq, Inhabited
 
+/-- … and an update of the float parameter by the driver selects the closest allowed value as well: the index it
+leaves is one whose value no other label is closer to (the float parameter then shows that value) -/
 def FloatEnumOk (vdict : List (Int × Val)) (r : FRec) : Prop :=
   ShowsIndexValue vdict r.idx r.value ∧
-  ∀ x, r.write = some x → r.ok = true → ∃ i, r.selected = some i ∧ SelectsClosest vdict x i
+  (∀ x, r.write = some x → r.ok = true → ∃ i, r.selected = some i ∧ SelectsClosest vdict x i) ∧
+  (∀ x, r.assign = some x → r.ok = true → SelectsClosest vdict x r.idx)
 
 def floatEnumOkB (vdict : List (Int × Val)) (r : FRec) : Bool :=
   (vdict.lookup r.idx == some r.value) &&
@@ -90,22 +94,31 @@ def floatEnumOkB (vdict : List (Int × Val)) (r : FRec) : Bool :=
    | some x, true => (match r.selected with
       | some i => selectsClosestB vdict x i
       | none => false)
+   | _, _ => true) &&
+  (match r.assign, r.ok with
+   | some x, true => selectsClosestB vdict x r.idx
    | _, _ => true)
 
 theorem floatEnumOkB_iff (vdict : List (Int × Val)) (r : FRec) :
     floatEnumOkB vdict r = true ↔ FloatEnumOk vdict r := by
   unfold floatEnumOkB FloatEnumOk ShowsIndexValue
-  rw [Bool.and_eq_true, beq_iff_eq]
-  refine and_congr Iff.rfl ?_
-  cases hw : r.write with
-  | none => simp
-  | some x =>
-    cases hok : r.ok with
-    | false => simp
-    | true =>
-      cases hs : r.selected with
-      | none => simp
-      | some i => simp [selectsClosestB_iff]
+  rw [Bool.and_eq_true, Bool.and_eq_true, beq_iff_eq, and_assoc]
+  refine and_congr Iff.rfl (and_congr ?_ ?_)
+  · cases hw : r.write with
+    | none => simp
+    | some x =>
+      cases hok : r.ok with
+      | false => simp
+      | true =>
+        cases hs : r.selected with
+        | none => simp
+        | some i => simp [selectsClosestB_iff]
+  · cases hw : r.assign with
+    | none => simp
+    | some x =>
+      cases hok : r.ok with
+      | false => simp
+      | true => simp [selectsClosestB_iff]
 
 def judgeFloatEnum (vdict : List (Int × Val)) : List FRec → Nat → Option Nat
   | [], _ => none
@@ -129,9 +142,40 @@ instance (l : Limits) (x : Val) : Decidable (Within l x) :=
   inferInstanceAs (Decidable ((∀ a, l.min = some a → a ≤ x) ∧ (∀ b, l.max = some b → x ≤ b) ∧
     (∀ ab, l.limits = some ab → ab.1 ≤ x ∧ x ≤ ab.2)))
 
+/-- Position `a` (MRO order, most derived class first) is the class where the limit parameter selected by `sel` is
+defined first: it declares it and no class after it (towards the root) does. -/
+def FirstDeclares (layers : List Layer) (sel : Layer → Bool) (a : Nat) : Prop :=
+  sel (layers.getD a default) = true ∧ ∀ b, b < layers.length → a < b → sel (layers.getD b default) = false
+
+/-- frappy's rule for the automatic limit check (modulebase.py, `checkLimits` docstring): the class where a limit
+parameter is defined first gets a `check_<p>` calling `checkLimits` — unless the programmer gave that very class a
+`check_<p>` of his own, which then replaces it ("when no automatic super call is desired"). -/
+def AutoAt (layers : List Layer) (a : Nat) : Prop :=
+  (layers.getD a default).ownCheck = false ∧
+  (FirstDeclares layers (·.declMin) a ∨ FirstDeclares layers (·.declMax) a ∨ FirstDeclares layers (·.declLimits) a)
+
+/-- "a parameter with limit parameters": the limits are enforced on a write when some class of the hierarchy carries the
+automatic check and no programmer's `check_<p>` *before* it in MRO order ended the checking by returning `True`
+(`stopAt`: the position of the check method that did).  A check method inherited from a class further down, or one that
+merely returns `None`, never switches the limits off. -/
+def AutoApplies (layers : List Layer) (stopAt : Option Nat) : Prop :=
+  ∃ a, a < layers.length ∧ (AutoAt layers a ∧ ∀ j, stopAt = some j → a < j)
+
+instance (layers : List Layer) (sel : Layer → Bool) (a : Nat) : Decidable (FirstDeclares layers sel a) :=
+  inferInstanceAs (Decidable (sel (layers.getD a default) = true ∧
+    ∀ b, b < layers.length → a < b → sel (layers.getD b default) = false))
+
+instance (layers : List Layer) (a : Nat) : Decidable (AutoAt layers a) :=
+  inferInstanceAs (Decidable ((layers.getD a default).ownCheck = false ∧
+    (FirstDeclares layers (·.declMin) a ∨ FirstDeclares layers (·.declMax) a ∨ FirstDeclares layers (·.declLimits) a)))
+
+instance (layers : List Layer) (stopAt : Option Nat) : Decidable (AutoApplies layers stopAt) :=
+  inferInstanceAs (Decidable (∃ a, a < layers.length ∧ (AutoAt layers a ∧ ∀ j, stopAt = some j → a < j)))
+
 /-- what is recorded for one operation on a parameter with limits -/
 structure LRec where
   write : Option Val               -- `some x`: a write of the base parameter with value `x`
+  stopAt : Option Nat              -- MRO position of the programmer's `check_<p>` that returned `True` during the write
   echo : Bool                      -- the driver took the requested value over unchanged
   setLimits : Option (Val × Val)   -- `some (a, b)`: a write of `<p>_limits` with the pair `(a, b)`
   ok : Bool                        -- the operation was accepted
@@ -140,20 +184,22 @@ structure LRec where
   value : Val                      -- base parameter after the operation
   deriving Repr, DecidableEq, Inhabited
 
-def LimitsOk (r : LRec) : Prop :=
-  (∀ x, r.write = some x → r.ok = true → Within r.before x ∧ (r.echo = true → r.value = x ∧ Within r.after r.value)) ∧
+def LimitsOk (layers : List Layer) (r : LRec) : Prop :=
+  (∀ x, r.write = some x → r.ok = true → AutoApplies layers r.stopAt →
+    Within r.before x ∧ (r.echo = true → r.value = x ∧ Within r.after r.value)) ∧
   (∀ ab, r.setLimits = some ab → ab.2 < ab.1 → r.ok = false ∧ r.after.limits = r.before.limits)
 
-instance (r : LRec) : Decidable (LimitsOk r) :=
+instance (layers : List Layer) (r : LRec) : Decidable (LimitsOk layers r) :=
   inferInstanceAs (Decidable (
-    (∀ x, r.write = some x → r.ok = true → Within r.before x ∧ (r.echo = true → r.value = x ∧ Within r.after r.value)) ∧
+    (∀ x, r.write = some x → r.ok = true → AutoApplies layers r.stopAt →
+      Within r.before x ∧ (r.echo = true → r.value = x ∧ Within r.after r.value)) ∧
     (∀ ab, r.setLimits = some ab → ab.2 < ab.1 → r.ok = false ∧ r.after.limits = r.before.limits)))
 
-def limitsOkB (r : LRec) : Bool := decide (LimitsOk r)
+def limitsOkB (layers : List Layer) (r : LRec) : Bool := decide (LimitsOk layers r)
 
-def judgeLimits : List LRec → Nat → Option Nat
+def judgeLimits (layers : List Layer) : List LRec → Nat → Option Nat
   | [], _ => none
-  | r :: rest, i => if limitsOkB r then judgeLimits rest (i + 1) else some i
+  | r :: rest, i => if limitsOkB layers r then judgeLimits layers rest (i + 1) else some i
 
 /-! ## controllers of the outputs of a node -/
 
